@@ -664,6 +664,13 @@ func ParseSpecFile(path, defaultPkg string) (*SpecFile, error) {
 			if err != nil {
 				return nil, fail(err)
 			}
+			if kw == "interface" && !strings.Contains(c.Key, "/") && strings.Count(c.Key, ".") == 1 && sf.Pkg != "" {
+				// unqualified interface name: it belongs to the file's package
+				if _, isImport := sf.Imports[strings.SplitN(c.Key, ".", 2)[0]]; !isImport {
+					c.Key = sf.Pkg + "." + c.Key
+					c.Pkg = sf.Pkg
+				}
+			}
 			c.Assumed = assumed
 			c.Iface = kw == "interface"
 			c.File, c.Line = path, it.line
